@@ -153,7 +153,14 @@ func genC11(c *Ctx) {
 			sa := secretShapes[c.R.Intn(len(secretShapes))]
 			sb := sa
 			equal := c.R.Chance(1, 2)
-			if !equal {
+			if !equal && c.R.Chance(1, 3) {
+				// differ only in white space / control bytes at the ends
+				pairs := [][2][]byte{{[]byte("x"), []byte("x\n")}, {{}, []byte(" ")}, {[]byte("\tsecret"), []byte("secret")},
+					{[]byte("pass phrase"), []byte("pass phrase\r\n")}, {{1, 2, 13}, {1, 2}}, {[]byte(" a"), []byte("a ")}, {[]byte("a"), []byte("A")}}
+				pr := pairs[c.R.Intn(len(pairs))]
+				sa, sb = pr[0], pr[1]
+				c.Count("smp:secrets-differ-in-whitespace")
+			} else if !equal {
 				sb = append([]byte{}, sa...)
 				if len(sb) == 0 {
 					sb = []byte{1}
